@@ -18,6 +18,11 @@ type hcfg struct {
 	A   int64
 	B   int64
 	Bad bool
+	P   *hsub // pointer-to-struct section (non-nil in some defaults)
+}
+
+type hsub struct {
+	X int64
 }
 
 var errInvalid = errors.New("hcfg: invalid")
@@ -38,6 +43,8 @@ type hval struct {
 	setA, setB, setBad bool
 	a, b               int64
 	bad                bool
+	setPX              bool
+	px                 int64
 }
 
 func mkValue(t *Type, v hval) reflect.Value {
@@ -53,6 +60,13 @@ func mkValue(t *Type, v hval) reflect.Value {
 	if v.setBad {
 		x := v.bad
 		out.FieldByName("Bad").Set(reflect.ValueOf(&x))
+	}
+	if v.setPX {
+		pf := out.FieldByName("P")
+		sub := reflect.New(pf.Type().Elem())
+		x := v.px
+		sub.Elem().FieldByName("X").Set(reflect.ValueOf(&x))
+		pf.Set(sub)
 	}
 	return out
 }
